@@ -1,7 +1,7 @@
 """C14 -- software versions are ordered numerically, component by component."""
 import ast
 
-from sa.core import AnalysisError, unparse, walk_no_nested, stmt_text, call_name, func_id
+from sa.core import AnalysisError, unparse, walk_no_nested, stmt_text, call_name, func_id, bind_args
 from sa.logic import path_condition
 from sa.callgraph import CallGraph
 
@@ -15,7 +15,7 @@ VERSION_EXPRS = {
     'software:Software.compare_version': {'self.version', 'oversion'},
     'timeframe:Timeframe._update': {'prev', 'ssh_version'},
 }
-MODULES = ('software', 'timeframe', 'algorithms', 'algorithm', 'ssh_audit')
+MODULES = ('software', 'timeframe', 'algorithms', 'algorithm', 'ssh_audit', 'utils')
 VERSION_NAME_HINTS = ('version', 'oversion', 'ssh_ver', 'v_from', 'v_till', 'vfrom', 'vtill', 'prev')
 
 
@@ -54,10 +54,14 @@ def run(repo, rep, tier):
             return bool(vals) and all(keyed(v, f) for v in vals)
         return False
 
+    vparams = set()         # (function id, parameter) that receive a version string at some call site (inter-procedural, to a fixed point)
+
     def versionish(e, fid):
         if isinstance(e, ast.Call) and e.args and any(versionish(a, fid) for a in e.args):
             return True
         t = unparse(e)
+        if isinstance(e, ast.Name) and (fid, e.id) in vparams:
+            return True
         if t in VERSION_EXPRS.get(fid, set()):
             return True
         if isinstance(e, ast.Name) and any(e.id == h or e.id.endswith('_' + h) or e.id.startswith(h) for h in VERSION_NAME_HINTS) and e.id not in ('versions',):
@@ -65,6 +69,28 @@ def run(repo, rep, tier):
         if isinstance(e, ast.Attribute) and e.attr == 'version':
             return True
         return False
+    for _round in range(4):
+        before = len(vparams)
+        for (m, q), f in sorted(repo.all_funcs().items()):
+            if m not in MODULES:
+                continue
+            fid = '%s:%s' % (m, q)
+            for c in walk_no_nested(f):
+                if not isinstance(c, ast.Call):
+                    continue
+                for kind, g in sym.resolve_call(c, f):
+                    if g is None or g._module.name not in MODULES or is_numeric_key(g):
+                        continue
+                    try:
+                        b = bind_args(c, g, skip_self=isinstance(c.func, ast.Attribute))
+                    except Exception:
+                        continue
+                    for pname, arg in b.items():
+                        if arg is not None and versionish(arg, fid) and not keyed(arg, f):
+                            vparams.add(('%s:%s' % (g._module.name, g._qualname), pname))
+        if len(vparams) == before:
+            break
+    rep.extra['version_string_parameters'] = sorted('%s(%s)' % v for v in vparams)
     nsites = 0
     lexical_patch = []
     for (m, q), f in sorted(repo.all_funcs().items()):
@@ -94,36 +120,72 @@ def run(repo, rep, tier):
                 if any(versionish(a, fid) for a in args) and not any(k.arg == 'key' for k in n.keywords) and m in ('software', 'timeframe'):
                     nsites += 1
                     rep.check('numeric', '%s: %s() over versions uses a numeric key' % (fid, n.func.id), False, n, '%s() applied to raw version strings' % n.func.id)
-    rep.floor('numeric', 'version ordering sites', nsites, 4)
-    # the two anchor functions must contain ordering sites (else the matcher went blind)
+    rep.floor('numeric', 'version ordering sites', nsites, 1)
+    # the two anchor functions must order versions themselves or hand their version strings to a function that does (else the matcher went blind)
+
+    def orders(f):
+        return any(isinstance(n, ast.Compare) and any(isinstance(o, (ast.Lt, ast.Gt, ast.LtE, ast.GtE)) for o in n.ops) for n in walk_no_nested(f))
     for fid in VERSION_EXPRS:
         m, q = fid.split(':')
         f = repo.func(m, q)
-        has = any(isinstance(n, ast.Compare) and any(isinstance(o, (ast.Lt, ast.Gt, ast.LtE, ast.GtE)) for o in n.ops) for n in walk_no_nested(f))
-        rep.check('numeric', '%s still orders versions' % fid, has, f, '%s no longer contains an ordering comparison: anchor moved' % fid)
+        has = orders(f)
+        if not has:
+            for c in walk_no_nested(f):
+                if isinstance(c, ast.Call):
+                    for kind, g in sym.resolve_call(c, f):
+                        if g is not None and any(v[0] == '%s:%s' % (g._module.name, g._qualname) for v in vparams) and orders(g):
+                            has = True
+        rep.check('numeric', '%s still orders versions' % fid, has, f, '%s no longer contains (or delegates) an ordering comparison: anchor moved' % fid)
 
     # ---- rule 2: patch ordering only after numeric equality ------------------------------------------------------------------
     cv = repo.func('software', 'Software.compare_version')
     rep.floor('patch', 'lexical patch comparisons', len(lexical_patch), 2)
-    vrets = []
-    for n in walk_no_nested(cv):
-        if isinstance(n, ast.If) and isinstance(n.test, ast.Compare) and any(isinstance(o, (ast.Lt, ast.Gt)) for o in n.test.ops) and all(keyed(o, cv) or versionish(o, 'software:Software.compare_version') for o in [n.test.left] + n.test.comparators) \
-                and not any(unparse(o) in ('spatch', 'opatch') for o in [n.test.left] + n.test.comparators):
-            vrets.append(n)
-    ok = len(vrets) == 2
-    if ok:
-        first = vrets[0]
-        chain_ok = len(first.orelse) == 1 and first.orelse[0] is vrets[1]
-        r1 = [unparse(s.value) for s in first.body if isinstance(s, ast.Return)]
-        r2 = [unparse(s.value) for s in vrets[1].body if isinstance(s, ast.Return)]
-        lt_first = isinstance(first.test.ops[0], ast.Lt)
-        ok = chain_ok and r1 == (['-1'] if lt_first else ['1']) and r2 == (['1'] if lt_first else ['-1'])
-        # operands: self on the left in both
-        ok = ok and 'self.version' in unparse(first.test.left) and 'self.version' in unparse(vrets[1].test.left)
-    rep.check('patch', 'compare_version: numeric part decides first (self < other -> -1, self > other -> 1)', ok, vrets[0] if vrets else cv, 'numeric comparison block of compare_version changed')
-    for f, n in lexical_patch:
-        after = all(n.lineno > v.lineno for v in vrets) if vrets else False
-        rep.check('patch', 'patch suffixes are compared only after the numeric parts compared equal', after and f is cv, n, 'lexical patch comparison `%s` is reachable before the numeric comparison' % unparse(n))
+    # orientation and "numeric part first", by interpretation over the three orderings of the two numeric keys (the versions are only
+    # touched through comparisons of their keys): when self's key is smaller every path returns -1, when larger every path returns 1 --
+    # in particular no path reaches a patch comparison unless the keys are equal.  Helpers are interpreted in place.
+    from sa.listinterp import Interp
+    from sa.abseval import Opaque, Unknown
+
+    class VTok:
+        def __init__(self, name):
+            self.name = name
+
+        def __repr__(self):
+            return '<version %s>' % self.name
+
+    def resolver(call):
+        f0 = getattr(call, '_func', None) or cv
+        for kind, g in sym.resolve_call(call, f0):
+            if g is not None and g._module.name in MODULES and not is_numeric_key(g) and g is not cv:
+                return g
+        return None
+    for rel, ks, ko, want in (('older', 1, 2, -1), ('newer', 2, 1, 1)):
+        def hook(call, env, interp, ks=ks, ko=ko):
+            f0 = getattr(call, '_func', None) or cv
+            for kind, g in sym.resolve_call(call, f0):
+                if g is not None and is_numeric_key(g) and call.args:
+                    try:
+                        v = interp.value(call.args[0], env)
+                    except Unknown:
+                        v = None
+                    return (True, (ks,) if isinstance(v, VTok) and v.name == 'self' else (ko,))
+            return None
+        env = {'self': Opaque(), 'self.version': VTok('self'), 'other': Opaque(), 'other is None': False}
+        try:
+            finals = Interp(call_hook=hook, resolver=resolver).run(cv.body, env)
+        except Unknown as ex:
+            raise AnalysisError('Software.compare_version cannot be interpreted over key orderings: %s' % ex)
+        wrong = []
+        for fe in finals:
+            rep.evals()
+            r = fe.get('<return>')
+            if fe.get('<outcome>') != 'return' or isinstance(r, Opaque):
+                raise AnalysisError('Software.compare_version: result not computable when self is %s (forks %s)' % (rel, fe.get('<forks>')))
+            if r != want:
+                wrong.append((r, fe.get('<forks>', [])))
+        rep.check('patch', 'compare_version returns %d on every path when its own numeric version is %s (patch suffixes cannot override the numeric order)' % (want, rel), not wrong, cv,
+                  'compare_version returns %s although its own numeric version is %s than the other%s' % (wrong[0][0] if wrong else '', rel, (' (on the path where %s)' % ' / '.join(wrong[0][1][:2])) if wrong and wrong[0][1] else ''),
+                  stmt='compare_version orientation: %s' % rel, sample={'rule': 'patch', 'ordering': rel, 'paths': len(finals)})
     txt = unparse(cv)
     for need, what in (("re.match('^test\\\\d.*$', opatch)", 'Dropbear test-release normalisation'), ("re.match('^p(\\\\d).*', opatch)", 'OpenSSH pN normalisation'), ("spatch == '' and opatch == '1' or (spatch == '1' and opatch == '')", 'OpenSSH p1 == release')):
         rep.check('patch', 'product-specific patch rule present: %s' % what, need in txt, cv, 'patch rule missing: %s' % what)
